@@ -1,26 +1,9 @@
 (* Obligations over the object table regenerated from /repo (Gen/Objects.v) and their link to the
    abstract memo model (Lemmas/Memo.v). *)
 From Coq Require Import List String Bool NArith Lia.
-From BU Require Import Base.Bytes Gen.Objects Model.Memo Lemmas.Memo Lemmas.ObjectsExpected.
+From BU Require Import Base.Bytes Gen.Objects Model.Memo Model.Objects Lemmas.Memo Lemmas.ObjectsExpected.
 Import ListNotations.
 Open Scope string_scope.
-
-Definition smem (x : string) (l : list string) : bool := existsb (String.eqb x) l.
-Definition disjointb (a b : list string) : bool := forallb (fun x => negb (smem x b)) a.
-
-Definition centry := (string * list string * N)%type.
-Definition name_of (m : centry) : string := fst (fst m).
-Definition reads_of (m : centry) : list string := snd (fst m).
-
-(* THE OBLIGATION: every memoised method reads no field that is written after construction *)
-Definition caches_over_immutable_b (cs : list centry) (mut : list string) : bool :=
-  forallb (fun m => disjointb (reads_of m) mut) cs.
-
-(* the (method, field) pairs violating it *)
-Definition offenders_of (cs : list centry) (mut : list string) : list (string * string) :=
-  flat_map (fun m => map (fun f => (name_of m, f)) (filter (fun f => smem f mut) (reads_of m))) cs.
-
-Definition offenders : list (string * string) := offenders_of cached mutable_fields.
 
 Lemma smem_In : forall x l, smem x l = true <-> In x l.
 Proof.
@@ -103,15 +86,6 @@ Proof. vm_compute. reflexivity. Qed.
 
 (* ------------------------------------------------------------------ instance of the memo model
    method key = (object, method name, arguments); field = (object, "Class.field") *)
-Definition mkey := (N * string * list N)%type.
-Definition fkey := (N * string)%type.
-Definition mkeyb (a b : mkey) : bool :=
-  let '(o1, n1, a1) := a in let '(o2, n2, a2) := b in N.eqb o1 o2 && String.eqb n1 n2 && list_eqb a1 a2.
-Definition fkeyb (a b : fkey) : bool := N.eqb (fst a) (fst b) && String.eqb (snd a) (snd b).
-Definition mname (m : mkey) : string := snd (fst m).
-Definition is_cached_key (m : mkey) : bool := smem (mname m) (map name_of cached).
-Definition gen_reads (n : string) : list string :=
-  match find (fun e => String.eqb (name_of e) n) cached with Some e => reads_of e | None => [] end.
 Definition writable_key (f : fkey) : Prop := In (snd f) mutable_fields.
 
 Lemma mkeyb_spec : forall a b, mkeyb a b = true <-> a = b.
